@@ -214,7 +214,7 @@ func (l *LookupEdgeAdjOut) Process(ctx context.Context, man gdbi.Manager, in gdb
 		for t := range in {
 			if t.IsSignal() {
 				queryChan <- gdbi.ElementLookup{Ref: t}
-			} else {
+			} else if !t.IsNull() {
 				queryChan <- gdbi.ElementLookup{
 					ID:  t.GetCurrent().To,
 					Ref: t,
@@ -293,7 +293,7 @@ func (l *LookupEdgeAdjIn) Process(ctx context.Context, man gdbi.Manager, in gdbi
 		for t := range in {
 			if t.IsSignal() {
 				queryChan <- gdbi.ElementLookup{Ref: t}
-			} else {
+			} else if !t.IsNull() {
 				queryChan <- gdbi.ElementLookup{
 					ID:  t.GetCurrent().From,
 					Ref: t,
@@ -475,6 +475,11 @@ func (r *Unwind) Process(ctx context.Context, man gdbi.Manager, in gdbi.InPipe, 
 				out <- t
 				continue
 			}
+			if t.IsNull() {
+				// no current element to replicate (null step, count, render, selection, ...)
+				out <- t
+				continue
+			}
 			v := jsonpath.TravelerPathLookup(t, r.Field)
 			if a, ok := v.([]interface{}); ok {
 				cur := t.GetCurrent()
@@ -544,7 +549,7 @@ func (h *HasLabel) Process(ctx context.Context, man gdbi.Manager, in gdbi.InPipe
 				out <- t
 				continue
 			}
-			if contains(labels, t.GetCurrent().Label) {
+			if !t.IsNull() && contains(labels, t.GetCurrent().Label) {
 				out <- t
 			}
 		}
